@@ -41,6 +41,7 @@ CORPUS = [
     '10 DIM g(0, 4)\n20 PUNCH g(1)',
     '10 DIM g(3, 4)\n20 PUNCH g(1, 2, 3)',
     '922337203685477580 PUNCH 1\n922337203685477581 SAVE 1',
+    '9999999999999999999 PUNCH 1',                       # 19+ digits: BASIC error (6d974611), never a hang
     '10 PUNCH (-2)^(-3), (-2)^(-2), (-1.5)^(-1), (-2)^3, (-2)^(-1) * (-3)^(-5)\n20 FOR k = -5 TO 5 : PUNCH (-1.5)^k : NEXT k\n30 SAVE (-2)^(-3)',
     '10 ON 0 GOSUB 100\n20 ON 5 GOTO 100, 200\n30 ON 2.5 GOTO 100, 200, 300\n40 PUNCH 40\n100 PUNCH 100\n200 PUNCH 200\n300 PUNCH 300 : RETURN',
     '10 DATA 1, 2 : DATA 3\n20 READ a : RESTORE 40 : READ b : RESTORE : READ c, d, e\n30 PUNCH a, b, c, d, e\n40 REM x : DATA 9\n50 DATA 4, "s"\n60 READ f, g$ : PUNCH f, g$ : READ h',
@@ -69,7 +70,6 @@ GOLDEN = [
     ('10 DIM a(3), b$(2) : a(1) = 5 : a(3) = 7 : b$(2) = "x" : PUNCH a(0), a(1), a(3), b$(2), c(10)\n20 PUT(2.5, 1, 2) : PUT$("s", 3) : PUNCH GET(1, 2), GET(2, 1), GET$(3)',
      [0, 5, 7, "x", 0, 2.5, 0, "s"]),
 ]
-LINE_HANG = '9999999999999999999 PUNCH 1'
 PEEKPOKE = ['10 PUNCH PEEK(8)', '10 POKE 8, 1']
 
 
@@ -191,7 +191,7 @@ ERR_CLASS = [("Type mismatch", "type"), ("Syntax_error", "syntax"), ("Bad subscr
              ("FOR without NEXT", "for-wo-next"), ("NEXT without FOR", "next-wo-for"), ("WHILE without WEND", "while-wo-wend"),
              ("WEND without WHILE", "wend-wo-while"), ("RETURN without GOSUB", "return-wo-gosub"), ("Out of Data", "out-of-data"),
              ("Extra information", "extra"), ("already dimensioned", "array-already"), ("Illegal command", "illegal"),
-             ("missing \" or '", "lex-quote"), ("missing ) or ]", "lex-rp"), ("missing ( or [", "lex-lp"), ("not SAVEed", "not-saved"), ("Line number is too large", "line-too-large")]
+             ("missing \" or '", "lex-quote"), ("missing ) or ]", "lex-rp"), ("missing ( or [", "lex-lp"), ("not SAVEed", "not-saved"), ("line number is too large", "line-too-large")]
 
 
 def err_class(text):
@@ -310,7 +310,12 @@ def make_programs(ctx, n):
         size = rng.choice(sizes)
         if rng.random() < (0.02 if ctx.tier == "quick" else 0.01):
             size = rng.choice([120, 200, 300])
-        lines, hist = G.gen_program(rng, size)
+        deep = ctx.tier == "thorough" and rng.random() < 0.25
+        if deep:
+            size = rng.choice([80, 150, 250, 400])
+        lines, hist = G.gen_program(rng, size, max_depth=6 if deep else 3)
+        if deep:
+            hist = dict(hist, **{"deep-program": 1})
         kind = "valid"
         if rng.random() < 0.3:
             lines, kind = G.mutate(rng, lines)
@@ -335,11 +340,6 @@ def run(ctx):
         if rs["p"]["status"].startswith("sig"):
             ctx.finding("basic-peek-poke", f"BASIC PEEK/POKE dereference an arbitrary address: {text!r} ends with {rs['p']['status']}",
                         {"program": text, "hosts": ["punch"]})
-    # ---- a line number of 19+ digits: BASIC error in the reference; the real engine must not hang
-    lh = run_real(ctx, exe, [("p", "punch", LINE_HANG)], tmo=5)
-    if lh["p"]["status"] != "err":
-        ctx.finding("basic-line-number-hang", f"line number too large: the real engine answers {lh['p']['status']} instead of a BASIC error "
-                    "(basic_compile restarts after the PBasicStop thrown by parseinput)", {"program": LINE_HANG, "hosts": ["punch"]})
     # ---- documented values on the real engine (and on the model)
     gm = run_model(ctx, [(i, 0, t) for i, (t, _) in enumerate(GOLDEN)])
     gr = run_real(ctx, exe, [(i, "punch", t) for i, (t, _) in enumerate(GOLDEN)])
